@@ -1,5 +1,6 @@
 (* C53 — the line parsers: gix parse_line vs git read_mailmap_line on one already-trimmed line of
-   "plain" bytes (ASCII without NUL, VT, FF), outside the parser-level known classes. *)
+   "plain" bytes (any byte but NUL, VT, FF and the lead bytes C2, E1, E2, E3 of the multi-byte
+   Unicode white space), outside the parser-level known classes. *)
 From Coq Require Import Arith Lia List.
 From GixV.Base Require Import Bytes BytesFacts Outcome.
 From GixV.C53 Require Import Model Spec ProofsTop.
@@ -7,7 +8,8 @@ Import ListNotations.
 Local Open Scope N_scope.
 
 Definition plain (b : byte) : bool :=
-  N.ltb (b2N b) 128 && negb (isb b 0) && negb (isb b 11) && negb (isb b 12).
+  negb (isb b 0) && negb (isb b 11) && negb (isb b 12)
+  && negb (isb b 194) && negb (isb b 225) && negb (isb b 226) && negb (isb b 227).
 Definition all_plain (s : bytes) : bool := forallb plain s.
 
 (* ---- byte-level facts, exhaustively *)
